@@ -110,8 +110,19 @@ pub fn alpha_pipeline_resolved(files: &[(String, String)], opts: Opts) -> (Verdi
 	(v, r)
 }
 
+thread_local! {
+	/// The raw lints of the last run of the pipeline on this thread (for rendering checks).
+	pub static LAST_LINTS: std::cell::RefCell<Vec<Error>> = std::cell::RefCell::new(Vec::new());
+}
+
+pub fn take_last_lints() -> Vec<Error>
+{
+	LAST_LINTS.with(|l| std::mem::take(&mut *l.borrow_mut()))
+}
+
 pub fn alpha_pipeline_all(files: &[(String, String)], opts: Opts) -> (Verdict, Vec<Error>, Vec<Vec<penne::alpha::resolved::Declaration>>)
 {
+	LAST_LINTS.with(|l| l.borrow_mut().clear());
 	let mut modules = Vec::new();
 	for (name, source) in files
 	{
@@ -167,6 +178,7 @@ pub fn alpha_pipeline_all(files: &[(String, String)], opts: Opts) -> (Verdict, V
 		{
 			let e: Error = l.into();
 			all_lints.push(diag_of(&e));
+			LAST_LINTS.with(|l| l.borrow_mut().push(e));
 		}
 		if opts.generate_ir
 		{
